@@ -294,6 +294,18 @@ def p4(ctx):
     obs = []
     for f in ctx.prog.all_funcs():
         params = set(f.posparams) | set(f.kwonly)
+        # the conditional expression supplies a value *for the tested parameter*: it is passed as the keyword of
+        # the same name, or assigned to the parameter / an attribute named after it
+        role_sites = {}
+        for m in walk_shallow(f.node):
+            if isinstance(m, ast.keyword) and m.arg and isinstance(m.value, ast.IfExp):
+                role_sites[id(m.value)] = m.arg
+            if isinstance(m, ast.Assign) and isinstance(m.value, ast.IfExp) and len(m.targets) == 1:
+                t = m.targets[0]
+                if isinstance(t, ast.Name):
+                    role_sites[id(m.value)] = t.id
+                elif isinstance(t, ast.Attribute):
+                    role_sites[id(m.value)] = t.attr.lstrip('_')
         for n in walk_shallow(f.node):
             if not isinstance(n, ast.IfExp):
                 continue
@@ -308,6 +320,8 @@ def p4(ctx):
             p = l.id
             if p not in params:
                 continue
+            if role_sites.get(id(n)) != p:
+                continue        # a branch on the parameter that computes something else (not a default for it)
             other = n.orelse if isinstance(t.ops[0], ast.Is) else n.body
             uses = any(isinstance(m, ast.Name) and m.id == p for m in ast.walk(other))
             const_other = isinstance(other, ast.Constant)
@@ -371,6 +385,15 @@ def format_facts(ctx):
                         uniq.append([st.table, list(st.index_cols)])
     facts['tables'] = tables
     facts['unique'] = sorted(uniq)
+    # counter triggers by name: a directory of the released version keeps its triggers (IF NOT EXISTS), so a renamed
+    # or merged trigger set runs in addition to the old one and every row is counted twice
+    trig = {}
+    for p in ctx.paths(init, 'plain')[:40]:
+        for e in p.trace:
+            if e.kind == 'SQL' and e.d['stmt'] is not None and e.d['stmt'].kind == 'create_trigger':
+                st = e.d['stmt']
+                trig[st.name] = [st.trigger_event[0], st.trigger_event[1], st.table]
+    facts['triggers'] = trig
     # shard directory names
     finit = ctx.method('FanoutCache', '__init__')
     namev = None
